@@ -83,7 +83,7 @@ def run(ctx):
 
     # Known findings: entries of known_findings.json (added by the lead from design/C17.md) override these proposals;
     # an entry whose status is not "open" (e.g. "fixed") switches the masking off, so the defect would be a violation again.
-    known = dict(DEFAULT_FINDINGS)
+    known = {}   # only what known_findings.json lists is a known finding
     for f in vlib.known_findings("C17"):
         known[f["key"]] = f
     mono_known = known.get("deactivation-assumes-monotone-line-length", {}).get("status") == "open"
